@@ -90,6 +90,13 @@ func c13Container(closeErrs map[string]error) *restful.Container {
 			closeErrs[req.PathParameter("id")] = fmt.Errorf("not compressing")
 		}
 	}))
+	ws.Route(ws.GET("/h/{id}").To(func(req *restful.Request, resp *restful.Response) {
+		// what net/http's ServeContent / FileServer do for "304 Not Modified" and for errors: the
+		// representation headers are taken off the response before the status is written
+		resp.Header().Del("Content-Encoding")
+		pt("handler.mid")
+		resp.WriteHeader(http.StatusNotModified)
+	}))
 	ws.Route(ws.POST("/e/{id}").To(func(req *restful.Request, resp *restful.Response) {
 		var v c13Ent
 		if err := req.ReadEntity(&v); err != nil {
@@ -134,6 +141,8 @@ func c13Request(kind byte, id string) (h.Req, string, int) {
 		return h.Req{Method: "POST", Segs: []string{"s", "e", id}, Hdr: [][2]string{{"Content-Type", "application/json"}, {"Content-Encoding", "gzip"}}}, "entity-" + id + "-" + strings.Repeat(id, 40), 200
 	case 'X': // gzip request body with a corrupt header: ReadEntity must return an error
 		return h.Req{Method: "POST", Segs: []string{"s", "e", id}, Hdr: [][2]string{{"Content-Type", "application/json"}, {"Content-Encoding", "gzip"}}}, "read error: ", 400
+	case 'H': // the handler takes the Content-Encoding header off the response (304): only the ledger verdict counts
+		return h.Req{Method: "GET", Segs: []string{"s", "h", id}, Hdr: [][2]string{{"Accept-Encoding", "gzip"}}}, "", 304
 	case 'F': // the underlying writer fails every write (client gone)
 		return h.Req{Method: "GET", Segs: []string{"s", "n", id}, Hdr: [][2]string{{"Accept-Encoding", "gzip"}}}, "", 200
 	}
@@ -148,7 +157,7 @@ func freerunC13(iters int) {
 			restful.SetCompressorProvider(newProvider(prov))
 			closeErrs := map[string]error{}
 			c := c13Container(closeErrs)
-			kinds := "NDEPRXFNDR"
+			kinds := "NDEPRXFNDRH"
 			var wg sync.WaitGroup
 			for i := range kinds {
 				if kinds[i] == 'C' {
